@@ -150,11 +150,24 @@ class BaseNode(Node):
         if value.value is None:   # none is assigned
             value.unit = self.units_raw
             self.value = value
+            self.value_raw = Keyword.NONE
             return
         if isinstance(value, (IntegerType, FloatType)):
             value.unit = node.units_raw
             value.convert(self.units_raw, env)
         self.set_value(value.value)
+        # keep the raw value up to date, references and imports read it
+        self.value_raw = self._raw_from_value(value.value)
+
+    def _raw_from_value(self, value):
+        """ Express a current value as a raw value
+        """
+        if isinstance(value, (list, np.ndarray)):
+            return json.dumps(np.asarray(value).tolist())
+        elif isinstance(value, (bool, np.bool_)):
+            return Keyword.TRUE if value else Keyword.FALSE
+        else:
+            return str(value)
 
     def slice_value(self, slices, value=None):
         """ Slice part of the value
